@@ -7,7 +7,7 @@ dependency are recorded; unload guarded by empty reverse-dependencies and iterat
 fixpoint.  Not decided: the order of events over all DAGs."""
 from ..facts import AnalysisBroken
 from ..model import sx, walk, is_var, is_field, const_of, vars_in, root_var, same, on_path, rel
-from .. import rules
+from .. import rules, core
 
 UNIT = 'src/module.c'
 EXPLANATION = (
@@ -56,7 +56,7 @@ def dlsym_calls(P, f, sym):
 
 
 def construct_once(P, R):
-    ld = P.need_fn('module_load')
+    ld = core.module_loader(P)
     ctor = dlsym_calls(P, ld, 'module_constructor')
     R.ob('C20.GRD.1', len(ctor) == 1, ctor[0] if ctor else ld, 'the loader calls the module constructor (once in its body)', key='ctor-call')
     look = [s for s in ld.stores() if (s.ev.get('rhs') or {}).get('callee') == 'set_find' and is_var(s.ev.get('lhs'))]
@@ -535,7 +535,7 @@ def loading_context(P, R, rule='C20.MPT.5'):
     """Dependencies are booked on "the module being constructed".  module_load sets that context for the constructor
     call and puts the previous one back on every (non-fatal) way out - a module without a constructor included -
     otherwise the next module's declarations are booked on the wrong module."""
-    ld = P.need_fn('module_load')
+    ld = core.module_loader(P)
     ctx = None
     for s in ld.stores():
         if s.ev['k'] == 'store' and is_var(s.ev.get('lhs')) and s.ev['lhs'].get('sc') in ('file_static', 'global') and s.ev['lhs'].get('t', '').replace('const ', '').startswith('struct module'):
@@ -572,7 +572,7 @@ def one_key(P, R, rule='C20.MPT.7'):
     that is then loaded: between the lookup that answers it and the call that makes (or finds) the module's record, the
     name is not replaced by another spelling - otherwise the record of a module that is already constructed comes back
     and its constructor runs again."""
-    ld = P.need_fn('module_load')
+    ld = core.module_loader(P)
     key = ld.params[0]
     looks = [s for s in ld.calls('set_find') if any(is_var(x, key) for a in s.ev['args'] for x in walk(a))]
     gets = [s for s in ld.calls('module_get') if s.ev['args'] and any(is_var(x, key) for x in walk(s.ev['args'][0]))]
@@ -590,7 +590,7 @@ def no_dependent_loaded_from_constructor(P, R, rule='C20.MPT.8'):
     that depends on the caller while the caller's constructor is still on the stack (module_antidepends on a module not
     loaded yet) lets that module, and whatever it pulls in that depends on the caller too, finish constructing before
     the caller has."""
-    ld = P.need_fn('module_load')
+    ld = core.module_loader(P)
     n = 0
     for c in P.callers(ld, may=True):
         f = c.fn
@@ -605,13 +605,45 @@ def no_dependent_loaded_from_constructor(P, R, rule='C20.MPT.8'):
     R.floor(rule, 2, 'callers of the module loader')
 
 
+def one_object_one_module(P, R, rule='C20.GRD.7'):
+    """"Constructed once": modules are kept by the name they were asked for, but one shared object can be asked for under
+    several names ("iauth", "./iauth", its full path) - dlopen() then hands back the handle it already gave out, and a
+    second look-up of module_constructor in it runs the constructor again.  Between opening an object and looking up its
+    constructor the loader compares the new handle with the handles of the modules it already has."""
+    ld = core.module_loader(P)
+    opens = [t for t in ld.stores() if t.ev['k'] == 'store' and is_field(t.ev.get('lhs'), 'handle') and any(x.get('k') == 'callref' for x in walk(t.ev.get('rhs') or {}))]
+    ctor = [t for t in ld.calls('dlsym') if len(t.ev['args']) > 1 and t.ev['args'][1].get('k') == 'str' and t.ev['args'][1].get('v') == 'module_constructor']
+    if not opens or not ctor:
+        raise AnalysisBroken('module_load no longer opens the object and looks up its constructor')
+
+    def compares_handles(bid):
+        c = ld.term_cond(bid)
+        if c is None:
+            return False
+        for x in walk(c):
+            if isinstance(x, dict) and x.get('k') == 'bin' and x.get('op') in ('==', '!='):
+                l, r_ = x.get('l'), x.get('r')
+                if is_field(l, 'handle') and is_field(r_, 'handle') and sx(l) != sx(r_):
+                    return True
+        return False
+    cmp_blocks = {b for b in ld.reachable_blocks() if compares_handles(b)}
+    # the comparison sits in a walk over the modules already there: every path from the open to the look-up passes the
+    # head of that walk (which may find nothing to compare with)
+    heads = {h for h, body in rules.loops_of(ld) if (set(body) | {h}) & cmp_blocks}
+    for o in opens:
+        seen = ld.reach([e.dst for e in ld.out[o.bid]], cut_blocks=heads)
+        through = ctor[0].bid in seen and ctor[0].bid not in heads
+        R.ob(rule, bool(heads) and not through, o, 'between opening an object and looking up its constructor the loader compares its handle with those of the modules already loaded', key='same-object')
+    R.floor(rule, 1, 'objects opened by the module loader')
+
+
 def loader_details(P, R):
     """Three facts the order of construction and post-initialisation rests on."""
     # (TAB.3) a module is opened with lazy binding and global symbols: what it calls in the modules it depends on is
     # resolved when first used - those modules are loaded by its constructor, after the dlopen() - and what it exports is
     # visible to the modules that depend on it
     n = 0
-    for f in P.unit_fns(P.need_fn('module_load').unit):
+    for f in P.unit_fns(core.module_loader(P).unit):
         for s in f.calls('dlopen'):
             a = s.ev['args']
             if len(a) < 2 or const_of(a[0]) == 0:
@@ -641,7 +673,7 @@ def loader_details(P, R):
     R.floor('C20.WIRE.4', 1, 'calls of the list loader')
     # (GRD.6) "is a back-end" is a count of declarations, used as a truth value: it is only ever tested against zero
     m = 0
-    for f in P.unit_fns(P.need_fn('module_load').unit):
+    for f in P.unit_fns(core.module_loader(P).unit):
         for bid in f.reachable_blocks():
             for e in f.out[bid]:
                 r = rules.edge_rel(e)
@@ -662,7 +694,7 @@ def names_nonempty(P, R, rule='C20.GRD.5'):
     failure - it returns the main program, whose global scope already holds the constructors of every loaded module,
     so one of them runs a second time.  Wherever a name that is not part of a formatted path reaches dlopen(), it is
     known to be non-empty: by a test in the same function, or at every call of that function."""
-    un = P.need_fn('module_load').unit
+    un = core.module_loader(P).unit
     n = 0
 
     def nonempty_known(f, site, a):
@@ -746,6 +778,7 @@ def run(P, R, tier):
     reverse_list_removal(P, R)
     names_nonempty(P, R)
     loader_details(P, R)
+    one_object_one_module(P, R)
     no_dependent_loaded_from_constructor(P, R)
     one_key(P, R)
     loading_context(P, R)
